@@ -1223,6 +1223,10 @@ void VariableManager::assign_variable(const std::string &name,
                           << std::endl;
             }
             if (typed_value.struct_data) {
+                // r = o: 初期化済みの const メンバーは上書きできない
+                AssignmentHelpers::check_struct_store_over_const_members(
+                    *interpreter_, name, target);
+
                 bool was_const = target.is_const;
                 bool was_unsigned = target.is_unsigned;
                 if (interpreter_->debug_mode) {
